@@ -428,7 +428,9 @@ func generate(family string, rng *rand.Rand, thorough bool) []plan {
 						for _, n := range []int{rng.Intn(par + 1), par, par + 1 + rng.Intn(4)} {
 							s := &Stage{Kind: "fork", Par: par, Gate: gate, Inner: inner}
 							wc := 0
-							if rng.Intn(3) == 0 {
+							if rng.Intn(3) == 0 && !(par >= 7 && inner.Kind == "fmap") {
+								// (seven workers each in the middle of several sends when the cancel arrives: the trace
+								// acceptance explores too many interleavings; cancel is exercised with fewer workers)
 								wc = 1
 							}
 							add(plan{stage: s, icaps: []int{rng.Intn(3)}, inputs: [][]int{distinctInput(rng, n)}, sched: rnd(4, 2, 3, wc, 4, 0, nil), maxMoves: 40, drain: true, gen: "random"})
